@@ -21,7 +21,7 @@ RULE = (
     "every position, insertion of the representative set at every position; (d, thorough only) a coverage-guided atheris/libFuzzer "
     "campaign on decode with this oracle inside the target, from an empty and from the valid corpus; (e) live reader: each "
     "malformed input followed by 6 valid frames on a real logged-on endpoint, in one read, in "
-    "separate reads and with the read ending 1 / 5 bytes into the next valid frame. Oracle: decode(silent=True) never raises, 0<=used<=len, the drain loop "
+    "separate reads and with the read ending 1 / 5 bytes into the next valid frame; also frames the decoder accepts but the session layer cannot digest (MsgSeqNum empty / not a number / repeated / longer than int() converts, SenderCompID repeated, session bodies without their fields) followed by valid frames after which the peer stays SILENT - the valid frames must have been dispatched without waiting for further bytes. Oracle: decode(silent=True) never raises, 0<=used<=len, the drain loop "
     "terminates within len+1 rounds, a message comes with used>0, any returned raw frame is a slice "
     "of the input and passes the independent reference framer (CheckSum and BodyLength "
     "consistent). Non-trivial = input contains the frame-start marker; distinct by input bytes."
